@@ -429,3 +429,26 @@ def p_c17(ctx):
         "traces_validated_against_impl": len(files), "trace_events": events, "samples": samples, "exhaustive": False},
         assumptions=["constraints, addresses, cty types/values are immutable values (folded into the scalar digest, may be shared)", "nil and empty containers are the same abstract value; "
                      "a map that is non-nil in the original must accept entries in the copy", "nil root pointers and nil elements of maps/slices are not schema values"])
+
+
+@pipeline("C20")
+def p_c20(ctx):
+    cases, n = tlc_cases(ctx, "MC_Sig.tla", "MC_Sig_quick.cfg" if ctx.quick else "MC_Sig_full.cfg", "mcsig", timeout=3000)
+    pre = os.path.join(ctx.work, "sg")
+    p = ctx.run_hx(["sig", "-cases", cases, "-out", pre, "-every", "3" if ctx.quick else "5"])
+    info = json.loads(p.stdout.strip().splitlines()[-1])
+    files = sorted(glob.glob(pre + ".*.ndjson"))
+    bad, events = ctx.validate_traces("TraceSig.tla", "TraceSig.cfg", files)
+    viols = []
+    for b in bad:
+        e = json.loads(open(b["file"]).read().splitlines()[b["l"] - 1])
+        viols.append({"what": b["what"], "replay": {"pipeline": "sig", "tree": e["tree"], "loc": e["loc"], "layout": e["layout"], "obs": e["obs"]}})
+    samples = [json.loads(open(files[0]).readline())]
+    finish(ctx, viols, {
+        "evaluations": info["events"], "distinct_nontrivial": info["cases"],
+        "rule": "case = (call tree of depth <= 2 over 5 known signatures (0..2 fixed parameters, with/without variadic) and an unknown function, closed or not, with/without trailing comma; "
+                "abstract cursor location in a call); TLC checks Impl(tree,loc) in Allowed(tree,loc) for all %d states; every k-th case is rendered in 4 layouts (spaces, newlines, comments, "
+                "compact) and the real SignatureAtPos is compared by TraceSig with Allowed" % n,
+        "traces_validated_against_impl": len(files), "trace_events": events, "samples": samples, "exhaustive": False},
+        assumptions=["for calls without closing parenthesis only the loose reading is asserted (none, or a known call of the expression with a valid index)",
+                     "with too many arguments and no variadic parameter, falling back to the enclosing call is tolerated (DESIGN 5/C20)"])
